@@ -41,6 +41,7 @@ type Ctx struct {
 	Sample   bool
 	Suppress map[string]bool
 	softClass, softDetail string
+	offerHeaders          bool
 }
 
 func (c *Ctx) Violation(class, format string, a ...interface{}) {
@@ -74,6 +75,7 @@ func (c *Ctx) NewWorld(f sim.Faults) *World {
 		panic(sim.HarnessError{Msg: err.Error()})
 	}
 	w.Srv.Suppress = c.Suppress
+	w.Srv.OfferExtraHeaders = c.offerHeaders
 	c.W = w
 	return w
 }
